@@ -50,7 +50,7 @@ Section S.
   Notation cstate := (cstate Param Series LossV).
   Notation one_batch := (one_batch Param Series LossV model lossf loss_leb rounds0 propose draws agent_actions plan).
   Notation batches := (batches Param Series LossV model lossf loss_leb rounds0 propose draws agent_actions plan).
-  Notation calibrate := (calibrate Param Series LossV model lossf loss_leb rounds0 propose draws agent_actions plan).
+  Notation calibrate_pos := (calibrate_pos Param Series LossV model lossf loss_leb rounds0 propose draws agent_actions plan).
   Notation step := (step Param Series LossV model lossf loss_leb rounds0 propose draws agent_actions plan).
   Notation run := (run Param Series LossV model lossf loss_leb rounds0 propose draws agent_actions plan).
 
@@ -110,9 +110,9 @@ Section S.
   Proof. intros (l & Hs & HL). unfold set_samplers_seeds. rewrite Hs. cbn.
     exists (reseed_from draws 0 l). split; [reflexivity | now rewrite reseed_from_keys]. Qed.
 
-  Lemma calibrate_rr n s s' e r : RRokS L s -> calibrate n s = (s', e, r) -> RRokS L s'.
+  Lemma calibrate_pos_rr n s s' e r : RRokS L s -> calibrate_pos n s = (s', e, r) -> RRokS L s'.
   Proof.
-    intros [Hl Hd] H. unfold Calibrator.calibrate in H.
+    intros [Hl Hd] H. unfold Calibrator.calibrate_pos in H.
     set (c1 := if Nat.eqb _ 0 then _ else _) in H.
     assert (Hc1 : RRok L c1) by (unfold c1; destruct (Nat.eqb _ 0); [now apply RRok_seeds | exact Hl]).
     destruct Hc1 as (l1 & Hs1 & HL1). rewrite Hs1 in H. cbn [start_session] in H.
@@ -123,6 +123,13 @@ Section S.
     rewrite Hs2 in H. cbn [end_session] in H.
     destruct o1; injection H as <- <- <-; (split; [exists l2; cbn; auto | exact Hd2]).
   Qed.
+
+  Notation calibrate := (calibrate Param Series LossV model lossf loss_leb rounds0 propose draws agent_actions plan).
+  Lemma calibrate_rr n s s' e r : RRokS L s -> calibrate n s = (s', e, r) -> RRokS L s'.
+  Proof. intros Hi H. rewrite (calibrate_unfold Param Series LossV) in H. destruct n; [|eapply calibrate_pos_rr; eauto].
+    destruct (calibrate_pos 0 s) as [[s1 e1] r1] eqn:E. pose proof (calibrate_pos_rr _ _ _ _ _ Hi E) as [Hl Hd].
+    apply (zero_ckpt_cases Param Series LossV) in H. destruct H as [(-> & _ & _) | [(_ & Hlive & Hdisk & _) | (_ & -> & _)]]; [split; auto | | split; auto].
+    split; rewrite ?Hlive; auto. intros d Hd'. rewrite Hdisk in Hd'. injection Hd' as <-. exact Hl. Qed.
 
   Lemma step_rr s o s' e r : RRokS L s -> plain o -> step s o = (s', e, r) -> RRokS L s'.
   Proof.
